@@ -2,6 +2,8 @@
 
   python3 -m vf.seed_tool confirm <src_dir> <id> <property>   # re-verify in a scratch worktree, copy to seeded/<id>
   python3 -m vf.seed_tool run <id> [props...]                 # apply to /repo, run quick checks, undo
+  python3 -m vf.seed_tool confirm_benign <src_dir> <id> <property>  # a change that must NOT raise an alarm -> benign/<id>
+  python3 -m vf.seed_tool run_benign <id> [props...]
 """
 from __future__ import annotations
 
@@ -25,7 +27,7 @@ def sh(cmd, cwd=None, env=None, timeout=3600):
     return p.returncode, p.stdout
 
 
-def confirm(src, mid, prop):
+def confirm(src, mid, prop, benign=False):
     wt = f"/tmp/wt_confirm_{mid}"
     sh(f"git -C /repo worktree remove --force {wt}")
     rc, out = sh(f"git -C /repo worktree add -q --detach {wt} HEAD")
@@ -49,32 +51,33 @@ def confirm(src, mid, prop):
             res["suite_tail"] = outt.strip().splitlines()[-1][:200]
     finally:
         sh(f"git -C /repo worktree remove --force {wt}")
-    ok = res.get("patch_applies") and res["demo_clean_exit"] == 0 and res.get("demo_patched_exit", 0) != 0 \
-        and res.get("suite_exit") == 0
+    ok = res.get("patch_applies") and res["demo_clean_exit"] == 0 and res.get("suite_exit") == 0 \
+        and ((res.get("demo_patched_exit", 1) == 0) if benign else (res.get("demo_patched_exit", 0) != 0))
     res["confirmed"] = bool(ok)
     if ok:
-        dst = os.path.join(ROOT, "seeded", mid)
+        dst = os.path.join(ROOT, "benign" if benign else "seeded", mid)
         os.makedirs(dst, exist_ok=True)
         for f in ("patch.diff", "demo.py", "notes.md"):
             if os.path.exists(os.path.join(src, f)):
                 shutil.copy(os.path.join(src, f), os.path.join(dst, f))
         notes = open(os.path.join(src, "notes.md")).read() if os.path.exists(os.path.join(src, "notes.md")) else ""
-        meta = {"id": mid, "breaks_property": prop, "needs_to_manifest": notes[:1500],
+        meta = {"id": mid, ("keeps_property" if benign else "breaks_property"): prop, "needs_to_manifest": notes[:1500],
                 "confirmed": res, "what_i_ran": [
                     "scratch worktree of /repo HEAD: demo.py on the clean tree (exit 0 expected)",
-                    "git apply patch.diff; full pytest suite (must pass); demo.py (must exit non-zero)"],
+                    "git apply patch.diff; full pytest suite (must pass); demo.py (must exit "
+                    + ("0: the property still holds)" if benign else "non-zero)")],
                 "detected_by": {}}
         json.dump(meta, open(os.path.join(dst, "meta.json"), "w"), indent=1)
     print(json.dumps(res))
     return ok
 
 
-def run(mid, props):
+def run(mid, props, kind="seeded"):
     """Run the quick checks against the seeded change, in a scratch worktree of /repo HEAD with the
     patch applied (same effect as `git -C /repo apply` + run + `git checkout`, without disturbing /repo)."""
-    dst = os.path.join(ROOT, "seeded", mid)
+    dst = os.path.join(ROOT, kind, mid)
     meta = json.load(open(os.path.join(dst, "meta.json")))
-    props = props or [meta["breaks_property"]]
+    props = props or [meta.get("breaks_property") or meta["keeps_property"]]
     wt = f"/tmp/wt_run_{mid}"
     out_dir = f"/tmp/vf_out_{mid}"
     sh(f"git -C /repo worktree remove --force {wt}")
@@ -104,3 +107,7 @@ if __name__ == "__main__":
         sys.exit(0 if confirm(sys.argv[2], sys.argv[3], sys.argv[4]) else 1)
     elif sys.argv[1] == "run":
         run(sys.argv[2], sys.argv[3:])
+    elif sys.argv[1] == "confirm_benign":
+        sys.exit(0 if confirm(sys.argv[2], sys.argv[3], sys.argv[4], benign=True) else 1)
+    elif sys.argv[1] == "run_benign":
+        run(sys.argv[2], sys.argv[3:], kind="benign")
